@@ -120,7 +120,7 @@ type RegSpec struct {
 	PClass    string   `json:"pclass"`           // pattern class of the identifier(s)
 	GClass    string   `json:"gclass"`           // group class
 	Expect    []string `json:"expect,omitempty"` // names required by the documentation (nil: none)
-	Predicted []string `json:"-"`
+	Predicted []string `json:"-"`                // planning only; aligned with Tags
 }
 
 // PeerSpec mirrors c10rt.PeerSpec.
